@@ -89,6 +89,10 @@ Theorem C07_path_rules_are_safe : forall p fetch v cl, In cl (path_clauses p fet
 Proof. exact path_clauses_safe. Qed.
 Theorem C07_path_rules_bind_nodes : forall p fetch v cl, In cl (path_clauses p fetch v) -> exists pre x, cl = (pre ++ [PNodes x])%list.
 Proof. exact clause_ends_with_nodes. Qed.
+(* and the variable of every step of a clause is bound by that step only (the variables are <v>_0, <v>_2, <v>_3, ...: a later
+   step never re-binds - that is, silently unifies with - the variable of an earlier one) *)
+Theorem C07_path_step_variables_bound_once : forall p fetch v cl, In cl (path_clauses p fetch v) -> NoDup (step_vars cl).
+Proof. exact clause_step_variables_bound_once. Qed.
 Theorem C07_path_rule_example :
   path_rule_lines (Or [And [Pred "A" false false; Or [Pred "B" false false; Pred "C" true false]]; Pred "D" false false]) false "x"
   = [["init_x_0 = data.sourceNode"; "tmp_x_0 = nested_nodes with data.nodes as init_x_0[""A""]"; "x_0 = tmp_x_0[_][_]";
@@ -123,3 +127,4 @@ Print Assumptions C07_refuted_with_n.
 Print Assumptions C07_path_rules_are_safe.
 Print Assumptions C07_path_rules_bind_nodes.
 Print Assumptions C07_path_rule_example.
+Print Assumptions C07_path_step_variables_bound_once.
